@@ -10,7 +10,7 @@ import (
 // C07: safe for concurrent use, including concurrent first use of a type.
 
 var buildSites = []string{"reg.load", "reg.store", "reg.storeOrSwap", "struct.field", "struct.fieldDone", "struct.index", "struct.done", "map.build", "op.begin"}
-var steadySites = []string{"intern.miss", "intern.locked", "intern.publish", "map.entry", "map.key", "map.value", "struct.read", "struct.append", "slice.elem", "slice.append", "time.read", "json.map", "json.array", "json.kv"}
+var steadySites = []string{"intern.miss", "intern.locked", "intern.publish", "map.entry", "map.key", "map.value", "struct.read", "struct.append", "slice.elem", "slice.append", "time.read", "json.map", "json.array", "json.kv", "struct.size", "struct.descriptor", "map.size", "map.append", "slice.size", "slice.encode", "json.size", "json.encode", "other"}
 
 func pickSites(r *engine.PRNG, always []string, optional []string, pct int) []string {
 	out := append([]string(nil), always...)
@@ -327,7 +327,7 @@ func SweepScenario(seed uint64, job SweepJob, jobIdx int, i int) *Scenario {
 	}
 	sites := job.Sites
 	if sites == nil {
-		sites = append(append([]string(nil), buildSites...), "struct.append", "struct.read")
+		sites = append(append([]string(nil), buildSites...), "struct.append", "struct.read", "struct.size", "struct.descriptor")
 	}
 	sc := &Scenario{
 		Prop: prop, Seed: seed, Index: -1 - jobIdx, Insts: []world.InstCfg{job.Cfg},
